@@ -10,6 +10,10 @@ RAISE = '_ZN8Pistache4Http7Private4Step5raiseEPKcNS0_4CodeE'
 UNITS = {
   'body': dict(src=HTTP, mode='inl', roots=[PCL, PTE], stubs=[RAISE], noinline=[CPARSE]),
 }
+APPLY = ['_ZN8Pistache4Http7Private11HeadersStep5applyERNS_12StreamCursorE', '_ZN8Pistache4Http7Private15RequestLineStep5applyERNS_12StreamCursorE',
+         '_ZN8Pistache4Http7Private16ResponseLineStep5applyERNS_12StreamCursorE', '_ZN8Pistache4Http7Private8BodyStep5applyERNS_12StreamCursorE']
+UNITS['parser'] = dict(src=HTTP, mode='inl', roots=['_ZN8Pistache4Http7Private10ParserBase4feedEPKcm', '_ZN8Pistache4Http7Private10ParserBase5resetEv', '_ZN8Pistache4Http7Private10ParserBase5parseEv'], stubs=APPLY,
+    globals=['_ZTVN8Pistache4Http7Private8BodyStepE', '_ZTVN8Pistache4Http7Private11HeadersStepE', '_ZTVN8Pistache4Http7Private15RequestLineStepE'])
 REAL = dict(real=ALL, shim=['harness/shim_guard.cc'])
 TV = dict(real=ALL + ['harness/shim_guard.cc'], n=300)
 HARNESSES = [
@@ -18,6 +22,16 @@ HARNESSES = [
        bound='body section n <= 6 bytes (thorough 10), every Content-Length value 0..2^64-1, every cut k <= n (thorough: every pair of cuts)',
        desc='L5 Content-Length: segmented run == one-shot run == reference (first cl bytes); counters reset at Done; reserve within budget', replay=REAL, tv=TV),
 ]
+HARNESSES += [
+  dict(name='parse_dispatch', units=['parser'], file='c04_parser.c', defs={'H_PARSE': None, 'S': 2}, unwind=6,
+       bound='any start step, any script of 4 step results', desc='L6: step index advances exactly on Next; parse returns the first Again/Done'),
+]
+for (s_, x_, l1, l2) in [(s_, x_, l1, l2) for s_ in (0, 1, 3) for x_ in (0, 1) for l1 in (0, 1, 2) for l2 in (1, 3)]:
+    HARNESSES.append(dict(name='feed_s%d_x%d_l%d_%d' % (s_, x_, l1, l2), units=['parser'], file='c04_parser.c',
+       defs={'H_FEED': None, 'S': 4, 'SFIX': s_, 'XFIX': x_, 'L1FIX': l1, 'L2FIX': l2}, unwind=8, witness=(s_ == 1 and x_ == 0 and l1 == 2 and l2 == 1),
+       tiers=('quick', 'thorough') if (x_ == 0 and l2 == 1) or (s_ == 3 and l1 == 2) else ('thorough',),
+       bound='buffer of %d bytes with %d spare capacity, any read offset, any maxSize (64-bit), feeds of %d then %d bytes, all contents' % (s_, x_, l1, l2),
+       desc='L1/C14a: feed re-bases the get area, preserves read offset and earlier bytes, appends in order; refused iff over the limit and then changes nothing'))
 def chunk_inst(n, k1, k2, tiers, witness):
     d = {'N': n, 'NFIX': n, 'K1FIX': k1, 'K2FIX': k2, 'D': 2 if k1 == k2 else 3, 'CHUNKED': None, 'REFERENCE': None, 'VP_DISPATCH_ru8p_u8p': None}
     return dict(name='chunk_n%d_k%d%s' % (n, k1, '' if k1 == k2 else '_%d' % k2), units=['body'], file='c01_body.c', defs=d, unwind=n + 3,
